@@ -2,6 +2,7 @@
 from __future__ import annotations
 
 import ast
+import copy
 import re
 import warnings
 from typing import Dict, List, Optional, Set, Tuple
@@ -28,7 +29,10 @@ EXPLANATION = (
     "C11.pipeline: the value flow from the constructor parameters (file_path -> open / read ..., pddl_str) through the stored attribute to "
     "every element of the container that tokenize() returns is evaluated as chains of string operations (sa/rules/_c11_util.py: "
     "helpers inlined or evaluated in place, intermediate names, loops / comprehensions / generators / map, module or class constants, "
-    "compiled patterns and f-strings are transparent). On every chain: no separator is deleted (replace(<whitespace>, ''), ''.join of "
+    "compiled patterns, f-strings / str.format of constants are transparent; `for T in <table fixed by the source>: x = F(x, T)` and "
+    "functools.reduce over such a table are unrolled in order, rows being tuples, dict items, characters of a constant string or NamedTuple / "
+    "dataclass records; function values -- lambdas, str.<method>, repository functions, methodcaller / attrgetter / itemgetter / partial, "
+    "<compiled>.sub, entries of a dict of callables -- are applied where they are called or mapped). On every chain: no separator is deleted (replace(<whitespace>, ''), ''.join of "
     "pieces without line ends, re.sub(<whitespace>, '')), no operation rewrites, drops or reorders tokens, lower() is applied, ';' "
     "comments are cut to the end of the line before tokenising (regex AST: literal ';' followed by an unbounded repeat of 'any character "
     "but newline', no DOTALL, '$' only with MULTILINE on multi-line text, applied per line or on text whose newlines still end the "
@@ -37,13 +41,18 @@ EXPLANATION = (
     "were padded with blanks on both sides (replace, translate table or re.sub with a back-reference), or the matches of a scanning "
     "regex that makes each parenthesis a token of its own and excludes every separator that can still be present at that point of the "
     "chain (separators normalised away upstream are tracked along the chain). A line is kept out of the token stream only by "
-    "comment-line / blank-line tests (guard valuation over the filters of comprehensions, filter() and of the loops that add tokens); "
+    "comment-line / blank-line tests (guard valuation over the filters of comprehensions, filter() / filterfalse() -- predicate functions are evaluated in their own body "
+    "-- and of the loops that add tokens; a generator helper may not finish without yielding, a helper may not return an empty value, "
+    "for any other reason); "
     "both input modes (file / string) reach tokenize(). "
     "C11.eof: parse() must reject text that continues after the top-level form: after read_from_tokens a test of the same token "
     "container for emptiness under which 'tokens remain' raises and does not return. "
     "C11.reader: guard valuation of read_from_tokens (private helpers inlined) over (input empty, first token is '(' / ')', next token "
     "is ')'): empty input raises (test or IndexError handler around the first access), a stray ')' raises, an atom is returned as the "
-    "consumed token itself, the '(' case consumes it, appends the result of the recursive call on the same tokens exactly once per "
+    "consumed token itself (table-driven dispatch -- TABLE.get(token[, default]) / TABLE[token] / getattr(self, NAMES[token]) over a dict "
+    "display with constant keys, `token in TABLE`, `handler is None`, try / except KeyError around the lookup -- is first rewritten into the "
+    "equivalent chain of token == <key> tests; operator.eq / ne / not_ / truth / contains count as the tests they are; a function value "
+    "that stays uninterpreted is an ANALYSIS-ERROR), the '(' case consumes it, appends the result of the recursive call on the same tokens exactly once per "
     "iteration exactly while the next token is not ')', consumes that ')' and returns that very list; parse() hands the unmodified "
     "tokens of tokenize() to the reader."
 )
@@ -232,6 +241,53 @@ def _scan_regex_problems(pat: str) -> List[str]:
     return sorted(set(out))
 
 
+# --------------------------------------------------------------------------- operator-module spellings of tests
+_OPERATOR_CMP = {"operator.eq": ast.Eq, "operator.ne": ast.NotEq, "operator.lt": ast.Lt, "operator.le": ast.LtE, "operator.gt": ast.Gt, "operator.ge": ast.GtE,
+                 "operator.is_": ast.Is, "operator.is_not": ast.IsNot, "operator.contains": ast.In,
+                 "operator.__eq__": ast.Eq, "operator.__ne__": ast.NotEq, "operator.__contains__": ast.In}
+
+
+def _with_operator_forms(repo: Repo, f: FuncInfo, base):
+    """matcher that reads operator.eq(a, b) / ne / lt / ... / contains(a, b) / not_(x) / truth(x) as the comparison / negation they
+    are and hands everything else to `base`"""
+    flow = U.Flow(repo, f)
+    synth: Dict[int, Optional[ast.AST]] = {}
+
+    def canon(e: ast.Call) -> Optional[str]:
+        try:
+            return flow.canon(e.func, flow.p.node_of(e))
+        except Exception:
+            return None
+
+    def matcher(e):
+        if isinstance(e, ast.Call) and not e.keywords and 1 <= len(e.args) <= 2 and not any(isinstance(a, ast.Starred) for a in e.args):
+            if id(e) not in synth:
+                cn = canon(e)
+                new: Optional[ast.AST] = None
+                if cn in _OPERATOR_CMP and len(e.args) == 2:
+                    a, b = e.args
+                    if _OPERATOR_CMP[cn] is ast.In:
+                        a, b = b, a
+                    new = ast.copy_location(ast.Compare(left=a, ops=[_OPERATOR_CMP[cn]()], comparators=[b]), e)
+                elif cn in ("operator.not_", "operator.truth", "operator.__not__") and len(e.args) == 1:
+                    new = ast.copy_location(ast.UnaryOp(op=ast.Not() if cn != "operator.truth" else ast.UAdd(), operand=e.args[0]), e)
+                synth[id(e)] = new
+                synth[-id(e) - 1] = e          # (keeps the call alive: ids stay unique)
+            new = synth[id(e)]
+            if isinstance(new, ast.UnaryOp):
+                inner = matcher(new.operand)
+                if inner is None:
+                    return None
+                if isinstance(new.op, ast.UAdd):
+                    return inner
+                return inner[1:] if inner.startswith("!") else "!" + inner
+            if new is not None:
+                return base(new)
+        return base(e)
+
+    return matcher
+
+
 # --------------------------------------------------------------------------- judging one chain  source -> ... -> token
 class _NotInterpreted(Exception):
     pass
@@ -391,7 +447,7 @@ class _Chain:
             return
         if not method and name in U.PASS_CALLS:
             return
-        if not method and name == "filter":
+        if not method and name in ("filter", "itertools.filterfalse"):
             return
         if not method and name == "enumerate":
             raise _NotInterpreted("enumerate() whose pairs are used as tokens")
@@ -645,10 +701,12 @@ def _judge(chain: List[U.Op], has_semi: bool = False) -> _Chain:
 
 
 # --------------------------------------------------------------------------- line filters
-def _line_filters(repo: Repo, f: FuncInfo, r: RuleResult):
-    """a line may be left out of the token stream only because it is a comment line or blank: under (not comment line, not blank)
-    every filter on the way passes.  Filters are the conditions of comprehensions / generator expressions over the lines and the
-    tests that let an iteration of a statement loop finish without reaching the statement that adds the tokens."""
+class _LineWorld:
+    """guards of a function under 'the line is neither a comment line nor blank'"""
+    __slots__ = ("G", "g", "val", "seen", "valfn", "flow", "p")
+
+
+def _line_world(repo: Repo, f: FuncInfo) -> _LineWorld:
     p = L.prov(repo, f)
     pm = L.parents_of(f)
     flow = U.Flow(repo, f)
@@ -668,7 +726,7 @@ def _line_filters(repo: Repo, f: FuncInfo, r: RuleResult):
                     continue
                 if op.kind in ("elem", "collect", "attr-store") or (op.kind == "item" and op.v.value is None and not cut):
                     continue
-                if op.kind == "call" and op.v.recv is None and op.name in U.PASS_CALLS | {"filter"}:
+                if op.kind == "call" and op.v.recv is None and op.name in U.PASS_CALLS | {"filter", "itertools.filterfalse"}:
                     continue
                 if op.kind == "root" and (op.name.startswith(("self.", "param:")) or op.name == "self"):
                     continue
@@ -754,11 +812,55 @@ def _line_filters(repo: Repo, f: FuncInfo, r: RuleResult):
                 memo[k] = first_char_is_semicolon(e) or blank(e)
         return memo[k]
 
-    G = L.Guards(f, matcher)
-    g = G.g
-    val = {"commentline": False, "blank": False}
-    seen = G.reach(val)
-    valfn, _ = G.under(val, seen)
+    W = _LineWorld()
+    W.G = L.Guards(f, _with_operator_forms(repo, f, matcher))
+    W.g = W.G.g
+    W.val = {"commentline": False, "blank": False}
+    W.seen = W.G.reach(W.val)
+    W.valfn, _ = W.G.under(W.val, W.seen)
+    W.flow, W.p = flow, p
+    return W
+
+
+def _predicate_is(repo: Repo, fv: Optional[U.V], want: bool, depth: int = 0) -> bool:
+    """a filter predicate given as a function value has the truth value `want` for every line that is neither a comment line nor
+    blank: a function of the repository all of whose returns evaluate to `want` under that valuation, str.strip & co (true for
+    non-blank text), str.isspace (false), methodcaller of those"""
+    if fv is None or depth > 3:
+        return False
+    if fv.kind == "alt" and fv.parts:
+        return all(_predicate_is(repo, x, want, depth + 1) for x in fv.parts)
+    meth = None
+    if fv.kind == "leaf" and fv.name.startswith("global:str."):
+        meth = fv.name[len("global:str."):]
+    elif fv.kind == "call" and fv.recv is None and fv.name == "operator.methodcaller" and len(fv.args) == 1 and not fv.kw and fv.args[0].kind == "const":
+        meth = fv.args[0].value
+    if meth is not None:
+        return (want and meth in ("strip", "lstrip", "rstrip")) or (not want and meth == "isspace")
+    fi = fv.value if fv.kind == "leaf" and isinstance(fv.value, FuncInfo) else None
+    if fi is None or fi.is_method:
+        return False
+    flat = U.flatten(repo, fi)
+    params = [x for x in flat.params]
+    if len(params) != 1:
+        return False
+    W = _line_world(repo, flat)
+    rets = [n for n in W.g.nodes() if W.g.kind[n] == "return" and n in W.seen]
+    if not rets or any(m in W.seen and W.g.kind[m] != "return" for m, _l in W.g.pred[W.g.exit]):
+        return False
+    for n in rets:
+        st = W.g.stmt[n]
+        if not isinstance(st, ast.Return) or st.value is None or W.G.value(W.val, st.value, W.seen) is not want:
+            return False
+    return True
+
+
+def _line_filters(repo: Repo, f: FuncInfo, r: RuleResult, anchor: bool = True):
+    """a line may be left out of the token stream only because it is a comment line or blank: under (not comment line, not blank)
+    every filter on the way passes.  Filters are the conditions of comprehensions / generator expressions over the lines and the
+    tests that let an iteration of a statement loop finish without reaching the statement that adds the tokens."""
+    W = _line_world(repo, f)
+    G, g, val, seen, valfn, flow = W.G, W.g, W.val, W.seen, W.valfn, W.flow
     bad: List[Tuple[ast.AST, str]] = []
     # comprehension filters anywhere in the function (every comprehension of tokenize is part of the token flow)
     for n in ast.walk(f.node):
@@ -768,11 +870,18 @@ def _line_filters(repo: Repo, f: FuncInfo, r: RuleResult):
                     if G.value(val, cond, seen) is not True:
                         bad.append((cond, f"the filter `{unparse(cond, 60)}` of a comprehension"))
     for c in L.calls_in(f.node):
-        if isinstance(c.func, ast.Name) and c.func.id == "filter" and len(c.args) == 2:
+        try:
+            cv = flow.value(c)
+        except Exception:
+            cv = None
+        if cv is not None and cv.kind == "call" and cv.recv is None and cv.name in ("filter", "itertools.filterfalse") and len(c.args) == 2:
             fn_ = c.args[0]
-            if isinstance(fn_, ast.Constant) and fn_.value is None:
+            want = cv.name == "filter"
+            if isinstance(fn_, ast.Constant) and fn_.value is None and want:
                 continue
-            if isinstance(fn_, ast.Lambda) and G.value(val, fn_.body, seen) is True:
+            if isinstance(fn_, ast.Lambda) and G.value(val, fn_.body, seen) is want:
+                continue
+            if _predicate_is(repo, cv.args[0], want):
                 continue
             bad.append((c, f"the filter `{unparse(c, 60)}`"))
     # statement loops: the additions to a container must be certain in every iteration
@@ -826,6 +935,32 @@ def _line_filters(repo: Repo, f: FuncInfo, r: RuleResult):
                 what = f"the test `{unparse(tests[0], 60)}`" if tests else "a path through the loop body"
                 bad.append((tests[0] if tests else g.stmt[head], what))
                 break
+    if not anchor:
+        # a helper that is evaluated in place (generator / public function): per call it may hand back nothing only for a comment
+        # line / blank line -- a generator must not finish without passing a yield (or a loop that yields), a function must not
+        # return an empty value
+        def unknown_tests(nodes):
+            return [g.stmt[n].test for n in sorted(nodes) if g.kind[n] == "if" and C.eval3(g.stmt[n].test, valfn) is None and not getattr(g.stmt[n], "_inline_block", False)]
+
+        yields = {n for n, name in add_nodes.items() if name == "<yield>"}
+        if yields:
+            targets = set(yields)
+            for t in yields:
+                cur = g.loop_of.get(t)
+                while cur is not None:
+                    targets.add(cur)
+                    cur = g.loop_of.get(cur)
+            res = G.reach(val, avoid=targets)
+            r.site(f.qn + " [generator exit]")
+            if g.exit in res:
+                tests = unknown_tests(res)
+                bad.append((tests[0] if tests else f.node, f"the test `{unparse(tests[0], 60)}`" if tests else "a path through the generator"))
+        else:
+            rets = [n for n in g.nodes() if g.kind[n] == "return" and isinstance(g.stmt[n], ast.Return)]
+            empty = [n for n in rets if n in seen and (g.stmt[n].value is None or _is_empty(g.stmt[n].value))]
+            if empty and len(empty) < len(rets):
+                tests = unknown_tests(seen)
+                bad.append((tests[0] if tests else g.stmt[empty[0]], f"the test `{unparse(tests[0], 60)}`" if tests else "an empty return"))
     return bad
 
 
@@ -876,6 +1011,11 @@ def _const_str(p, e: ast.AST) -> Optional[Set[object]]:
                 return None
         elif len(x) == 1 and x[0].startswith("global:"):
             continue
+        elif len(x) == 1 and x[0].startswith("builtin:") and isinstance(e, ast.Name) and getattr(p, "f", None) is not None:
+            uc = U.unpacked_constant(p.repo, p.f.mod.name, e.id)      # A, B = "(", ")" at module level
+            if not isinstance(uc, ast.Constant):
+                return None
+            out.add(uc.value)
         else:
             return None
     return out or None
@@ -902,7 +1042,7 @@ def rule_pipeline(repo: Repo) -> RuleResult:
             semi_memo[id(e)] = _semicolon_atom(ptok, e) if isinstance(e, ast.Compare) else None
         return semi_memo[id(e)]
 
-    G = L.Guards(tok, semi)
+    G = L.Guards(tok, _with_operator_forms(repo, tok, semi))
     worlds = [None] if "semi" not in G.atoms_seen else [True, False]
     states: List[_Chain] = []
     all_chains: List[List[U.Op]] = []
@@ -1021,7 +1161,7 @@ def rule_pipeline(repo: Repo) -> RuleResult:
                 parts[id(ctx.f.node)] = (ctx.f, ctx.home or tok)
     bad = []
     for fpart, home in parts.values():
-        bad += [(home, node, what) for node, what in _line_filters(repo, fpart, r)]
+        bad += [(home, node, what) for node, what in _line_filters(repo, fpart, r, anchor=fpart is tok)]
     for home, node, what in bad[:1]:
         r.fail(Finding("C11.pipeline", home, "line-filter", f"{what} can keep a line that is neither a comment line nor blank out of the token stream", node=node))
     if not bad:
@@ -1049,7 +1189,10 @@ def _bool_ctx(pm: dict, e: ast.AST) -> bool:
         return _bool_ctx(pm, par)
     if isinstance(par, ast.comprehension):
         return any(c is e for c in par.ifs)
-    if isinstance(par, ast.Call) and isinstance(par.func, ast.Name) and par.func.id == "bool":
+    if isinstance(par, ast.Call) and isinstance(par.func, ast.Name) and par.func.id in ("bool", "not_", "truth"):
+        return True
+    if isinstance(par, ast.Call) and isinstance(par.func, ast.Attribute) and par.func.attr in ("not_", "truth") and isinstance(par.func.value, ast.Name) and \
+            par.func.value.id == "operator":
         return True
     return False
 
@@ -1074,7 +1217,7 @@ def _empty_atom(e: ast.AST, is_tokens, pm: dict) -> Optional[str]:
         return None
     if is_len(e) and _bool_ctx(pm, e):
         return "!empty"
-    if isinstance(e, ast.Name) and isinstance(e.ctx, ast.Load) and _bool_ctx(pm, e) and is_tokens(e):
+    if isinstance(e, (ast.Name, ast.Attribute)) and isinstance(e.ctx, ast.Load) and _bool_ctx(pm, e) and is_tokens(e):
         return "!empty"
     return None
 
@@ -1094,17 +1237,20 @@ def rule_eof(repo: Repo) -> RuleResult:
         arg = c.args[0] if c.args else next((k.value for k in c.keywords if k.arg == "tokens"), None)
         if arg is None:
             continue
+        def norm(paths):
+            return {U.strip_record_trips(repo, f.mod.name, x) for x in paths}
+
         try:
-            tpaths = p.trace(arg)
+            tpaths = norm(p.trace(arg))
         except KeyError:
             continue
         cn = g.node_containing(c)
 
         def is_tokens(x, tpaths=tpaths):
-            if not isinstance(x, ast.Name):
+            if not isinstance(x, (ast.Name, ast.Attribute)):
                 return False
             try:
-                return bool(tpaths) and p.trace(x) == tpaths
+                return bool(tpaths) and norm(p.trace(x)) == tpaths
             except KeyError:
                 return False
 
@@ -1112,10 +1258,10 @@ def rule_eof(repo: Repo) -> RuleResult:
 
         def matcher(e, is_tokens=is_tokens, memo=memo):
             if id(e) not in memo:
-                memo[id(e)] = _empty_atom(e, is_tokens, pm) if isinstance(e, (ast.Compare, ast.Call, ast.Name)) else None
+                memo[id(e)] = _empty_atom(e, is_tokens, pm) if isinstance(e, (ast.Compare, ast.Call, ast.Name, ast.Attribute)) else None
             return memo[id(e)]
 
-        G = L.Guards(f, matcher)
+        G = L.Guards(f, _with_operator_forms(repo, f, matcher))
         if "empty" not in G.atoms_seen or cn is None:
             continue
         rest = G.reach({"empty": False}, start=cn)
@@ -1131,11 +1277,323 @@ def rule_eof(repo: Repo) -> RuleResult:
     return r
 
 
+# --------------------------------------------------------------------------- table-driven dispatch -> if chains (local pre-pass)
+_KEEP: Dict[Tuple[int, str, int], Tuple[FuncInfo, FuncInfo]] = {}      # (the original is kept alive so that the id stays unique)
+
+
+def _dispatch_table(repo: Repo, fi: FuncInfo, fn: ast.FunctionDef, e: ast.AST) -> Optional[Tuple[ast.Dict, str]]:
+    """the dict display with distinct constant string keys behind an expression (a display, a local name assigned once, a module
+    constant, a class-level constant, an attribute that __init__ sets once) and where it lives ('local' | 'module' | 'class' | 'init')"""
+    d, where = None, "local"
+    if isinstance(e, ast.Dict):
+        d = e
+    elif isinstance(e, ast.Name):
+        stores = [n for n in ast.walk(fn) if isinstance(n, ast.Name) and n.id == e.id and isinstance(n.ctx, (ast.Store, ast.Del))]
+        if stores or e.id in fi.params:
+            vals = [st.value for st in ast.walk(fn) if isinstance(st, (ast.Assign, ast.AnnAssign)) and st.value is not None and
+                    any(isinstance(t, ast.Name) and t.id == e.id for t in (st.targets if isinstance(st, ast.Assign) else [st.target]))]
+            if len(stores) != 1 or len(vals) != 1 or e.id in fi.params:
+                return None
+            d = vals[0]
+            for n in ast.walk(fn):        # the local table is not changed afterwards
+                if isinstance(n, ast.Subscript) and isinstance(n.ctx, (ast.Store, ast.Del)) and isinstance(n.value, ast.Name) and n.value.id == e.id:
+                    return None
+                if isinstance(n, ast.Call) and isinstance(n.func, ast.Attribute) and isinstance(n.func.value, ast.Name) and n.func.value.id == e.id and \
+                        n.func.attr in ("update", "pop", "popitem", "setdefault", "clear", "__setitem__", "__delitem__"):
+                    return None
+        else:
+            r = repo.lookup(fi.mod.name, e.id)
+            d, where = (r[1], "module") if r and r[0] == "const" else (None, "")
+    elif isinstance(e, ast.Attribute) and isinstance(e.value, ast.Name) and fi.cls and e.value.id in (fi.self_name, fi.cls, "cls"):
+        for c in repo.mro(fi.cls):
+            for st in repo.classes[c].node.body:
+                tg = st.targets if isinstance(st, ast.Assign) else ([st.target] if isinstance(st, ast.AnnAssign) and st.value is not None else [])
+                if any(isinstance(t, ast.Name) and t.id == e.attr for t in tg):
+                    d, where = st.value, "class"
+            if d is not None:
+                break
+        stores = []
+        for c in repo.mro(fi.cls):
+            for m in repo.classes[c].methods.values():
+                for n in ast.walk(m):
+                    if isinstance(n, ast.Attribute) and n.attr == e.attr and isinstance(n.ctx, (ast.Store, ast.Del)):
+                        stores.append((m, n))
+                    if isinstance(n, ast.Subscript) and isinstance(n.ctx, (ast.Store, ast.Del)) and isinstance(n.value, ast.Attribute) and n.value.attr == e.attr:
+                        return None
+                    if isinstance(n, ast.Call) and isinstance(n.func, ast.Attribute) and isinstance(n.func.value, ast.Attribute) and n.func.value.attr == e.attr and \
+                            n.func.attr in ("update", "pop", "popitem", "setdefault", "clear"):
+                        return None
+        if d is None and len(stores) == 1 and stores[0][0].name == "__init__" and e.value.id == fi.self_name:
+            init = stores[0][0]
+            for st in init.body:          # (an unconditional statement of the constructor)
+                if isinstance(st, (ast.Assign, ast.AnnAssign)) and st.value is not None and any(t is stores[0][1] for t in (st.targets if isinstance(st, ast.Assign) else [st.target])):
+                    d, where = st.value, "init"
+        elif stores:
+            return None
+    if not isinstance(d, ast.Dict) or not d.keys or not all(isinstance(k, ast.Constant) and isinstance(k.value, str) for k in d.keys):
+        return None
+    if len({k.value for k in d.keys}) != len(d.keys):
+        return None
+    return d, where
+
+
+def _undispatch(repo: Repo, fi: FuncInfo) -> FuncInfo:
+    """`h = TABLE.get(key[, default])` / `h = TABLE[key]` ... `h(args)`, `TABLE[key](args)`, `h is None`, `key in TABLE` over a table of
+    callables with constant keys are rewritten (on a copy of the function) into the equivalent chain of `key == <constant>` tests that
+    call the table's entries directly -- the form the inliner and the guard valuation understand.  `try: h = TABLE[key] / except
+    KeyError: B` becomes `if key not in TABLE: B / else: h = TABLE[key]`."""
+    ck = (id(repo), fi.qn, id(fi.node))
+    if ck in _KEEP:
+        return _KEEP[ck][1]
+    fn = copy.deepcopy(fi.node)
+    changed = [False]
+    counter = [0]
+
+    def lookup(e: ast.AST):
+        """(table, where, key expr, default expr | None, mode) for T.get(K[, D]) / T[K]"""
+        if isinstance(e, ast.Call) and isinstance(e.func, ast.Attribute) and e.func.attr == "get" and 1 <= len(e.args) <= 2 and not e.keywords:
+            t = _dispatch_table(repo, fi, fn, e.func.value)
+            if t is not None:
+                return t[0], t[1], e.args[0], (e.args[1] if len(e.args) == 2 else None), "get"
+        if isinstance(e, ast.Subscript) and isinstance(e.ctx, ast.Load) and not isinstance(e.slice, ast.Slice):
+            t = _dispatch_table(repo, fi, fn, e.value)
+            if t is not None:
+                return t[0], t[1], e.slice, None, "item"
+        return None
+
+    def stores_of(name: str) -> int:
+        return sum(1 for n in ast.walk(fn) if isinstance(n, ast.Name) and n.id == name and isinstance(n.ctx, (ast.Store, ast.Del)))
+
+    def stable_key(k: ast.AST) -> bool:
+        return isinstance(k, ast.Name) and stores_of(k.id) + (1 if k.id in fi.params else 0) <= 1
+
+    handlers: Dict[str, tuple] = {}
+
+    def cmp_(k: ast.AST, const: ast.Constant, eq: bool) -> ast.Compare:
+        return ast.Compare(left=copy.deepcopy(k), ops=[ast.Eq() if eq else ast.NotEq()], comparators=[ast.Constant(value=const.value)])
+
+    def any_key(table: ast.Dict, k: ast.AST, member: bool) -> ast.AST:
+        parts = [cmp_(k, c, member) for c in table.keys]
+        return parts[0] if len(parts) == 1 else ast.BoolOp(op=ast.Or() if member else ast.And(), values=parts)
+
+    def callee(val: ast.AST, where: str, call: ast.Call) -> ast.Call:
+        new = copy.deepcopy(call)
+        if by_name(call) is not None:
+            # getattr(obj, TABLE[key])(args) over a table of method names  ->  obj.<name>(args)
+            if isinstance(val, ast.Constant) and isinstance(val.value, str) and val.value.isidentifier():
+                new.func = ast.Attribute(value=copy.deepcopy(call.func.args[0]), attr=val.value, ctx=ast.Load())
+            else:
+                new.func = ast.Call(func=ast.Name(id="getattr", ctx=ast.Load()), args=[copy.deepcopy(call.func.args[0]), copy.deepcopy(val)], keywords=[])
+        elif where == "class" and isinstance(val, ast.Name) and fi.cls and fi.self_name and repo.find_method(fi.cls, val.id) is not None \
+                and call.args and isinstance(call.args[0], ast.Name) and call.args[0].id == fi.self_name:
+            new.func = ast.Attribute(value=ast.Name(id=fi.self_name, ctx=ast.Load()), attr=val.id, ctx=ast.Load())
+            new.args = new.args[1:]
+        else:
+            new.func = copy.deepcopy(val)
+        return new
+
+    def chain(info, call: ast.Call, make) -> ast.stmt:
+        table, where, k, default, mode = info
+        if default is not None:
+            last: ast.stmt = make(callee(default, "local", call))
+        elif mode == "get":
+            last = ast.Raise(exc=ast.Call(func=ast.Name(id="TypeError", ctx=ast.Load()), args=[], keywords=[]), cause=None)
+        else:
+            last = ast.Raise(exc=ast.Call(func=ast.Name(id="KeyError", ctx=ast.Load()), args=[copy.deepcopy(k)], keywords=[]), cause=None)
+        for key, val in reversed(list(zip(table.keys, table.values))):
+            last = ast.If(test=cmp_(k, key, True), body=[make(callee(val, where, call))], orelse=[last])
+        return last
+
+    def by_name(c: ast.Call) -> Optional[ast.AST]:
+        f_ = c.func
+        if isinstance(f_, ast.Call) and isinstance(f_.func, ast.Name) and f_.func.id == "getattr" and len(f_.args) == 2 and not f_.keywords and isinstance(f_.args[0], ast.Name):
+            return f_.args[1]
+        return None
+
+    def info_of_call(c: ast.AST):
+        if not isinstance(c, ast.Call):
+            return None
+        sel = by_name(c)
+        if sel is not None:
+            if isinstance(sel, ast.Name) and sel.id in handlers:
+                return handlers[sel.id]
+            lk = lookup(sel)
+            return lk if lk is not None and stable_key(lk[2]) else None
+        if isinstance(c.func, ast.Name) and c.func.id in handlers:
+            return handlers[c.func.id]
+        lk = lookup(c.func)
+        if lk is not None and stable_key(lk[2]):
+            return lk
+        return None
+
+    class Tests(ast.NodeTransformer):
+        def visit_Compare(self, n):
+            self.generic_visit(n)
+            if len(n.ops) == 1:
+                l, op, r_ = n.left, n.ops[0], n.comparators[0]
+                if isinstance(op, (ast.Is, ast.IsNot, ast.Eq, ast.NotEq)) and isinstance(r_, ast.Constant) and r_.value is None and isinstance(l, ast.Name) and l.id in handlers:
+                    table, _w, k, default, mode = handlers[l.id]
+                    if mode == "get" and default is None:
+                        changed[0] = True
+                        return any_key(table, k, isinstance(op, (ast.IsNot, ast.NotEq)))
+                if isinstance(op, (ast.In, ast.NotIn)) and stable_key(l):
+                    t = _dispatch_table(repo, fi, fn, r_.func.value if isinstance(r_, ast.Call) and isinstance(r_.func, ast.Attribute) and r_.func.attr == "keys" and not r_.args else r_)
+                    if t is not None:
+                        changed[0] = True
+                        return any_key(t[0], l, isinstance(op, ast.In))
+            return n
+
+    def block(stmts: List[ast.stmt]) -> List[ast.stmt]:
+        out: List[ast.stmt] = []
+        for st in stmts:
+            # try: h = T[K] / except KeyError: B   ->   if K not in T: B / else: h = T[K] (+ else clause)
+            if isinstance(st, ast.Try) and len(st.body) == 1 and len(st.handlers) == 1 and not st.finalbody and isinstance(st.body[0], ast.Assign) \
+                    and isinstance(st.handlers[0].type, ast.Name) and st.handlers[0].type.id in ("KeyError", "LookupError") and st.handlers[0].name is None:
+                lk = lookup(st.body[0].value)
+                if lk is not None and lk[4] == "item" and stable_key(lk[2]):
+                    changed[0] = True
+                    out.extend(block([ast.If(test=any_key(lk[0], lk[2], False), body=st.handlers[0].body, orelse=st.body + st.orelse)]))
+                    continue
+            for fld in ("body", "orelse", "finalbody"):
+                if isinstance(getattr(st, fld, None), list) and not isinstance(st, (ast.FunctionDef, ast.AsyncFunctionDef, ast.ClassDef)):
+                    setattr(st, fld, block(getattr(st, fld)))
+            for h in getattr(st, "handlers", []) or []:
+                h.body = block(h.body)
+            if isinstance(st, ast.Assign) and len(st.targets) == 1 and isinstance(st.targets[0], ast.Name) and stores_of(st.targets[0].id) == 1:
+                lk = lookup(st.value)
+                if lk is not None:
+                    table, where, k, default, mode = lk
+                    if not stable_key(k):
+                        counter[0] += 1
+                        kn = f"__key__d{counter[0]}"
+                        out.append(ast.Assign(targets=[ast.Name(id=kn, ctx=ast.Store())], value=k, lineno=st.lineno, col_offset=st.col_offset))
+                        k = ast.Name(id=kn, ctx=ast.Load())
+                        if mode == "get":
+                            st.value.args[0] = copy.deepcopy(k)
+                        else:
+                            st.value.slice = copy.deepcopy(k)
+                        changed[0] = True
+                    handlers[st.targets[0].id] = (table, where, k, default, mode)
+                    if mode == "item":
+                        changed[0] = True
+                        out.append(ast.If(test=any_key(table, k, False), body=[ast.Raise(exc=ast.Call(func=ast.Name(id="KeyError", ctx=ast.Load()), args=[copy.deepcopy(k)],
+                                                                                                              keywords=[]), cause=None)], orelse=[]))
+                    out.append(st)
+                    continue
+            new = None
+            if isinstance(st, ast.Return) and st.value is not None:
+                info = info_of_call(st.value)
+                if info is not None:
+                    new = chain(info, st.value, lambda c: ast.Return(value=c))
+            elif isinstance(st, ast.Expr):
+                info = info_of_call(st.value)
+                if info is not None:
+                    new = chain(info, st.value, lambda c: ast.Expr(value=c))
+            elif isinstance(st, (ast.Assign, ast.AnnAssign)) and st.value is not None:
+                info = info_of_call(st.value)
+                if info is not None:
+                    def mk(c, st=st):
+                        s2 = copy.copy(st)
+                        s2.value = c
+                        return s2
+                    new = chain(info, st.value, mk)
+            if new is not None:
+                changed[0] = True
+                ast.copy_location(new, st)
+                out.append(new)
+            else:
+                out.append(st)
+        return out
+
+    class Unbound(ast.NodeTransformer):
+        """Cls.method(self, a) in a method of Cls  ->  self.method(a)"""
+        def visit_Call(self, n):
+            self.generic_visit(n)
+            if isinstance(n.func, ast.Attribute) and isinstance(n.func.value, ast.Name) and fi.cls and fi.self_name and n.func.value.id == fi.cls and n.args \
+                    and isinstance(n.args[0], ast.Name) and n.args[0].id == fi.self_name and n.func.attr in repo.classes[fi.cls].methods \
+                    and n.func.attr not in repo.classes[fi.cls].static:
+                changed[0] = True
+                n.func = ast.Attribute(value=ast.Name(id=fi.self_name, ctx=ast.Load()), attr=n.func.attr, ctx=ast.Load())
+                n.args = n.args[1:]
+            return n
+
+    fn.body = block(fn.body)
+    Tests().visit(fn)
+    Unbound().visit(fn)
+    if not changed[0]:
+        _KEEP[ck] = (fi, fi)
+        return fi
+
+    # the handler variable / the local table are dead now: drop their (side-effect free) assignments
+    def pure(e: ast.AST) -> bool:
+        return all(isinstance(n, (ast.Dict, ast.Name, ast.Attribute, ast.Constant, ast.Lambda, ast.arguments, ast.arg, ast.expr_context, ast.Subscript, ast.Tuple,
+                                  ast.Compare, ast.cmpop, ast.BoolOp, ast.boolop, ast.operator, ast.BinOp, ast.unaryop, ast.UnaryOp)) or
+                   (isinstance(n, ast.Call) and isinstance(n.func, ast.Attribute) and n.func.attr == "get") for n in ast.walk(e))
+
+    def prune(stmts: List[ast.stmt]) -> List[ast.stmt]:
+        out = []
+        for st in stmts:
+            if isinstance(st, ast.Assign) and len(st.targets) == 1 and isinstance(st.targets[0], ast.Name) and st.targets[0].id in dead and pure(st.value) and \
+                    (st.targets[0].id in handlers or isinstance(st.value, ast.Dict)):
+                changed[0] = True
+                continue
+            for fld in ("body", "orelse", "finalbody"):
+                if isinstance(getattr(st, fld, None), list) and not isinstance(st, (ast.FunctionDef, ast.AsyncFunctionDef, ast.ClassDef)):
+                    setattr(st, fld, prune(getattr(st, fld)) or ([ast.Pass()] if fld == "body" else []))
+            for h in getattr(st, "handlers", []) or []:
+                h.body = prune(h.body) or [ast.Pass()]
+            out.append(st)
+        return out
+
+    for _round in range(3):
+        loads = {n.id for n in ast.walk(fn) if isinstance(n, ast.Name) and isinstance(n.ctx, ast.Load)}
+        dead = {n.id for n in ast.walk(fn) if isinstance(n, ast.Name) and isinstance(n.ctx, ast.Store)} - loads
+        if not dead:
+            break
+        fn.body = prune(fn.body) or [ast.Pass()]
+    ast.fix_missing_locations(fn)
+    f2 = FuncInfo(fi.mod, fi.cls, fn, static=fi.static)
+    _KEEP[ck] = (fi, f2)
+    return f2
+
+
+def _fn(repo: Repo, spec: str) -> FuncInfo:
+    """L.fn after the dispatch pre-pass"""
+    return U.flatten(repo, _undispatch(repo, repo.func(spec)), 4)
+
+
+def _unresolved_function_values(repo: Repo, f: FuncInfo) -> Optional[ast.AST]:
+    """a call through a local function value (handler(tokens), TABLE[k](tokens)) that is still there after inlining, or a private
+    method / function of the repository that is used as a value (handed to partial / map / iter ...) instead of being called"""
+    stored = {n.id for n in ast.walk(f.node) if isinstance(n, ast.Name) and isinstance(n.ctx, ast.Store)}
+    called = set()
+    for c in L.calls_in(f.node):
+        called.add(id(c.func))
+        if isinstance(c.func, ast.Name) and c.func.id in stored:
+            return c
+        if isinstance(c.func, (ast.Subscript, ast.Call)):
+            return c
+    for n in ast.walk(f.node):
+        if id(n) in called:
+            continue
+        if isinstance(n, ast.Attribute) and isinstance(n.ctx, ast.Load) and isinstance(n.value, ast.Name) and n.value.id == f.self_name and f.cls \
+                and n.attr.startswith("_") and not n.attr.startswith("__") and repo.find_method(f.cls, n.attr) is not None and not repo.is_property(f.cls, n.attr):
+            return n
+        if isinstance(n, ast.Name) and isinstance(n.ctx, ast.Load) and n.id.startswith("_") and n.id not in stored and n.id not in f.params:
+            r = repo.lookup(f.mod.name, n.id)
+            if r is not None and r[0] == "func":
+                return n
+    return None
+
+
 # --------------------------------------------------------------------------- C11.reader
 def rule_reader(repo: Repo) -> RuleResult:
     r = RuleResult("C11.reader", "read_from_tokens: empty input and stray ')' raise; '(' collects sub-forms until the matching ')' and consumes it; atoms unchanged",
                    "the nested-list structure of the parenthesised tokens")
-    f = L.fn(repo, READ)
+    f = _fn(repo, READ)
+    fv = _unresolved_function_values(repo, f)
+    if fv is not None:
+        raise AnalysisError(f"read_from_tokens: `{unparse(fv, 60)}` uses a function as a value in a way that is not interpreted")
     p = L.prov(repo, f)
     g = C.cfg_of(f.node)
     rd = L.rd_of(f)
@@ -1223,7 +1681,7 @@ def rule_reader(repo: Repo) -> RuleResult:
         memo[k] = out
         return out
 
-    G = L.Guards(f, matcher)
+    G = L.Guards(f, _with_operator_forms(repo, f, matcher))
     raises = [n for n in g.nodes() if g.kind[n] == "raise"]
     rets = [n for n in g.nodes() if g.kind[n] == "return"]
 
@@ -1301,7 +1759,7 @@ def rule_reader(repo: Repo) -> RuleResult:
             arg = c.args[0] if c.args else next((k.value for k in c.keywords if k.arg == tokp), None)
             if arg is None:
                 continue
-            tr = pp.trace(arg)
+            tr = {U.strip_record_trips(repo, pf.mod.name, x) for x in pp.trace(arg)}
             if tr and any(x[:2] == ("self", "call:tokenize") and set(x[2:]) <= {"arg0:deque", "call:copy"} for x in tr) and \
                     all(x[:2] == ("self", "call:tokenize") or x[0].startswith(("fresh:", "ext:", "global:")) for x in tr):
                 ok = True
@@ -1312,7 +1770,7 @@ def rule_reader(repo: Repo) -> RuleResult:
                     if m is c or not isinstance(m.func, ast.Attribute) or m.func.attr not in MUTATORS:
                         continue
                     try:
-                        same = pp.trace(m.func.value) == tr
+                        same = {U.strip_record_trips(repo, pf.mod.name, x) for x in pp.trace(m.func.value)} == tr
                     except KeyError:
                         same = False
                     mn = pg.node_containing(m)
@@ -1323,7 +1781,7 @@ def rule_reader(repo: Repo) -> RuleResult:
                     tg = st.targets if isinstance(st, (ast.Delete, ast.Assign)) else []
                     for t in tg:
                         try:
-                            if isinstance(t, ast.Subscript) and pp.trace(t.value) == tr and cn is not None and cn in C.reachable_from(pg, n) and n != cn:
+                            if isinstance(t, ast.Subscript) and {U.strip_record_trips(repo, pf.mod.name, x) for x in pp.trace(t.value)} == tr and cn is not None and cn in C.reachable_from(pg, n) and n != cn:
                                 ok = False
                         except KeyError:
                             pass
